@@ -91,5 +91,9 @@ Effect(s, mu, a) ==
          THEN R(TRUE, [s EXCEPT ![n] = Sc(s[a.k].d[1]), ![m] = Sc(s[a.k].d[2])], mu) ELSE R(FALSE, s, mu)
     [] a.a = "Eval" ->            \* reading a variable changes nothing
          R(Def(s, n), s, mu)
+    [] a.a = "FailingCall" ->     \* a statement whose expression calls a user function that fails at run time (its body reads an
+                                  \* undefined name, no arm matches, an argument does not bind): an error, NOTHING changes -
+                                  \* in particular the caller's variables are all still there afterwards
+         R(FALSE, s, mu)
 
 =============================================================================
